@@ -59,6 +59,9 @@ PROBES = {
     'P5-error-inside-a-single-section': b'sec {\nx = bad }',
     'P6-error-in-a-stream': b'\ni = 7\ns = {',          # parsed with cfg_parse_fp: its diagnostics name the stream, not an earlier source
     'P7-float-first': b'f = 2.5 i = 3 l = {077}',          # conversions in an order that does not start with an integer
+    # refused at the very first token, for every kind of token: the diagnostic quotes that token and nothing an earlier scan left behind
+    'P8-first-token-append': b'+= 3', 'P9-first-token-equals': b'= 3', 'P10-first-token-brace': b'{ i = 1 }', 'P11-first-token-paren': b') (',
+    'P12-first-token-comma': b', i', 'P13-first-token-closing': b'} i = 2',
 }
 
 
@@ -238,9 +241,16 @@ def reference_runs():
     refs = {}
     try:
         for pn in PROBES:
-            r = d.run([fresh_probe_case((), pn)])[0]
-            o = observations(r, ())
-            k = next((i for i, l in enumerate(o) if l.startswith('dump ')), None)
+            c = fresh_probe_case((), pn)
+            r = d.run([c])[0]
+            o = observations(r, ()) if r.status not in ('crash', 'hang') else None
+            k = next((i for i, l in enumerate(o) if l.startswith('dump ')), None) if o is not None else None
+            if k is None:
+                # the probe does not even run to completion in a fresh process: a violation by itself (memory error, exit)
+                refs.setdefault('broken', []).append(('schema E8 %s\nroot %s\n%s' % (E8.spec(), enc(root), c.script()), pn,
+                                                     engine.sanitizer_summary(r.info) if r.status in ('crash', 'hang') else 'no result', engine.excerpt(r.info)))
+                refs[('fresh', pn)] = ['<no result>']
+                continue
             refs[('fresh', pn)] = o[:k + 1]
         r = d.run([live_probe_case(())])[0]
         refs[()] = [l for l in observations(r, ()) if not l.startswith('hyg ') and not l.startswith('leak ')]
@@ -258,6 +268,8 @@ def main():
     quick = ck.tier == 'quick'
     depth = 3 if quick else 6
     refs = reference_runs()
+    for script, pn, what, info in refs.pop('broken', []):
+        ck.add_violation('probe-fails-in-a-fresh-process:%s:%s' % (pn, what), script, 'the probe runs to completion', info)
     # sanity of the references against the reference model (machinery self-check)
     m = reftext.meaning(E8, 0, PROBES['P1-plain'])
     exp = 'dump ' + dump_sec(m.store, 0)
